@@ -83,6 +83,8 @@ def decoding(ctx, fd):
 
 def rules(ctx):
     from .C02 import capacity_capped_by_total
+    from . import formulas
+    formulas.flow_network_details(ctx, "R1")
     from .C07 import required_vehicles_pairing
     required_vehicles_pairing(ctx, "R2")     # the demand that the lower bound of a trip arc enforces
     capacity_capped_by_total(ctx)      # the capacity of a depot's spawn arc (capacity_of -> capacity_for) is capped by the depot's total
